@@ -198,7 +198,9 @@ theorem lphAddIp_in (g : Mem) (off o l O L : Nat) (r : Packet) (h' : Headers) (h
     · cases h; exact ⟨hnet, hpl⟩
     · split at h
       · cases h; exact ⟨hnet, hpl⟩
-      · split at h
+      · unfold lphTransport at h
+        simp only at h
+        split at h
         · split at h
           · rename_i w hw'
             have h1 := icmp4_in g _ _ w hw'
